@@ -50,11 +50,14 @@ RECURSIVE NamesAlong(_, _)
 NamesAlong(body, ip) ==
     IF ip = << >> THEN << >> ELSE << body[Head(ip)].n >> \o NamesAlong(body[Head(ip)].c, Tail(ip))
 
+\* everything written below a statement: its children and, for a uses, what its augments add
+Below(s) == s.c \o Flatten([ j \in DOMAIN s.aug |-> s.aug[j].c ])
+
 RECURSIVE HasUses(_)
 HasUses(ss) == \E i \in DOMAIN ss : ss[i].k = "uses" \/ HasUses(ss[i].c)
 
 RECURSIVE HasIff(_)
-HasIff(ss) == \E i \in DOMAIN ss : ss[i].iff # "" \/ HasIff(ss[i].c)
+HasIff(ss) == \E i \in DOMAIN ss : ss[i].iff # "" \/ HasIff(Below(ss[i]))
 
 RECURSIVE HasLocalGroupings(_)
 HasLocalGroupings(ss) == \E i \in DOMAIN ss : ss[i].gs # << >> \/ HasLocalGroupings(ss[i].c)
@@ -63,19 +66,22 @@ Container(s) == s.k \in {"container", "list", "case"}
 
 \* the type statements of the leaves in ss (deep)
 RECURSIVE TypeRefs(_)
-TypeRefs(ss) == UNION { IF ss[i].k \in {"leaf", "leaflist"} THEN { ss[i].ty } ELSE TypeRefs(ss[i].c) : i \in DOMAIN ss }
+TypeRefs(ss) == UNION { IF ss[i].k \in {"leaf", "leaflist"} THEN { ss[i].ty } ELSE TypeRefs(Below(ss[i])) : i \in DOMAIN ss }
 
 RECURSIVE HasLocalTypedefs(_)
 HasLocalTypedefs(ss) == \E i \in DOMAIN ss : ss[i].tds # << >> \/ HasLocalTypedefs(ss[i].c)
 
 \* a type reference that means the same anywhere in the module: built-in, prefixed, or a module-level typedef
-ModuleWide(ty) == ty.n \in Builtins \/ ty.p # "" \/ IndexOfName(ModuleLevel(ms, Main).tds, ty.n) > 0
+ModuleWide(ty) == (ty.p = "" /\ ty.n \in Builtins) \/ ty.p \notin {"", ms[Main].prefix} \/ IndexOfName(ModuleLevel(ms, Main).tds, ty.n) > 0
 
 RECURSIVE UsesRefs(_)
-UsesRefs(ss) == UNION { IF ss[i].k = "uses" THEN { ss[i].ref0 } ELSE UsesRefs(ss[i].c) : i \in DOMAIN ss }
+UsesRefs(ss) == UNION { (IF ss[i].k = "uses" THEN { ss[i].ref0 } ELSE {}) \cup UsesRefs(Below(ss[i])) : i \in DOMAIN ss }
 
 -----------------------------------------------------------------------------
 (* rewriting every uses of a grouping, everywhere in the module set *)
+
+\* a reference to a grouping of the main module: without prefix, or with the module's own
+OwnRef(r, ref) == r.g = ref.g /\ r.p \in {"", ms[Main].prefix}
 
 RECURSIVE MapUses(_, _, _, _)
 \* what = "refine": prepend refinement x;  "augment": prepend augment x;  "prefix": set prefix x
@@ -83,11 +89,12 @@ MapUses(ss, ref, what, x) ==
     [ i \in DOMAIN ss |->
         LET s == ss[i] IN
         IF s.k = "uses" THEN
-            (IF s.ref0 = ref THEN
-                CASE what = "refine" -> [s EXCEPT !.ref = << x >> \o @]
-                  [] what = "augment" -> [s EXCEPT !.aug = << x >> \o @]
-                  [] what = "prefix" -> [s EXCEPT !.ref0 = [p |-> x, g |-> ref.g]]
-             ELSE s)
+            LET s0 == [s EXCEPT !.aug = [ j \in DOMAIN s.aug |-> [s.aug[j] EXCEPT !.c = MapUses(s.aug[j].c, ref, what, x)] ]] IN
+            (IF OwnRef(s.ref0, ref) THEN
+                CASE what = "refine" -> [s0 EXCEPT !.ref = << x >> \o @]
+                  [] what = "augment" -> [s0 EXCEPT !.aug = << x >> \o @]
+                  [] what = "prefix" -> [s0 EXCEPT !.ref0 = [p |-> x, g |-> ref.g]]
+             ELSE s0)
         ELSE [s EXCEPT !.c = MapUses(s.c, ref, what, x),
                        !.gs = [ j \in DOMAIN s.gs |-> [s.gs[j] EXCEPT !.c = MapUses(s.gs[j].c, ref, what, x)] ]] ]
 
@@ -104,7 +111,7 @@ MapUsesAll(set, ref, what, x) ==
 
 RECURSIVE UsesOf(_, _)
 UsesOf(ss, ref) ==
-    UNION { IF ss[i].k = "uses" THEN (IF ss[i].ref0 = ref THEN { ss[i] } ELSE {})
+    UNION { IF ss[i].k = "uses" THEN (IF OwnRef(ss[i].ref0, ref) THEN { ss[i] } ELSE {}) \cup UsesOf(Below(ss[i]), ref)
             ELSE UsesOf(ss[i].c, ref) \cup UNION { UsesOf(ss[i].gs[j].c, ref) : j \in DOMAIN ss[i].gs }
             : i \in DOMAIN ss }
 
@@ -140,7 +147,7 @@ ExtractGrouping ==
                 newKids == SubSeq(kids, 1, i - 1) \o << u >> \o SubSeq(kids, j + 1, Len(kids))
                 body1 == WithKidsAt(M.body, ip, newKids)
             IN \* what the statements refer to must be visible where the grouping is defined
-               /\ (local \/ \A r \in UsesRefs(seg) : r.p # "" \/ IndexOfName(ModuleGroupings(ms, Main), r.g) > 0)
+               /\ (local \/ \A r \in UsesRefs(seg) : r.p \notin {"", M.prefix} \/ IndexOfName(ModuleGroupings(ms, Main), r.g) > 0)
                /\ (local \/ \A t \in TypeRefs(seg) : ModuleWide(t))
                /\ Step([ms EXCEPT ![Main] =
                         IF local
@@ -382,7 +389,15 @@ TypedefToSubmodule ==
 NextTypes == \/ ExtractTypedef \/ ChainTypedef \/ ToggleInherited \/ TypedefToImport \/ TypedefToSubmodule
              \/ ExtractGrouping \/ InlineUses \/ GroupingToSubmodule \/ TailToSubmodule
 
-Next == \/ ExtractGrouping \/ InlineUses \/ AttrToRefine \/ TailToUsesAugment \/ TailToModuleAugment
+\* R10: an unprefixed uses is written with the module's own prefix (RFC 7950 6.4.1: the prefix of the
+\* current module refers to the same definitions as no prefix, in every scope)
+OwnPrefix ==
+    \E ip \in PathsIn(M.body) :
+      LET s == StmtAt(M.body, ip) IN
+      /\ s.k = "uses" /\ s.ref0.p = ""
+      /\ Step([ms EXCEPT ![Main] = [M EXCEPT !.body = WithStmtAt(M.body, ip, [s EXCEPT !.ref0 = [p |-> M.prefix, g |-> s.ref0.g]])]])
+
+Next == \/ OwnPrefix \/ ExtractGrouping \/ InlineUses \/ AttrToRefine \/ TailToUsesAugment \/ TailToModuleAugment
         \/ TailToSubmodule \/ GroupingToImport \/ GroupingToSubmodule \/ ToggleConfig
 
 Init == /\ seed \in Seeds /\ ms = seed /\ steps = 0 /\ fresh = 0
